@@ -36,7 +36,9 @@ def run(pid, tier):
             from .rules import stringx, buildeval
             stringx.RMAX, stringx.LMAX = 21, 6
             buildeval.EXTRA_REPRESENTATIVES = True
-            chk.analysed["scopes"] = {"decoder": "0..21 bytes left, limits none/0..6/2^62/2^64-1", "builder": "every module shape with up to two functions of 0..2 blocks (last one open or finished) and every selection index in {none, 0, 1, 2}"}
+            from .rules import c19 as _c19
+            _c19.HIST_LEN = 5
+            chk.analysed["scopes"] = {"decoder": "0..21 bytes left, limits none/0..6/2^62/2^64-1", "storage": "histories of up to five operations", "builder": "every module shape with up to two functions of 0..2 blocks (last one open or finished) and every selection index in {none, 0, 1, 2}"}
         chk.analysed["facts"] = {"key": ctx.meta["key"], "repo": ctx.meta["repo"], "source_files": ctx.meta["files"],
                                  "extract_s": ctx.meta["extract_s"]}
         mod.run(ctx, chk)
